@@ -181,10 +181,23 @@ func c07Build(w *W, r *rand.Rand, k int) *c07Prog {
 		// list variables long enough to reach the hashing path with the constant
 		for i := range bs {
 			if _, ok := bs[i].Vals["li0"]; ok && i%3 != 2 {
-				bs[i].Vals["li0"] = bigIntList(r, []int{10, 80, 150}[r.Intn(3)])
+				l := bigIntList(r, []int{10, 80, 150}[r.Intn(3)])
+				if i%2 == 0 {
+					// a value family disjoint from the constants: a false result that leftovers of other calls could flip
+					for k := range l {
+						l[k] += 3
+					}
+				}
+				bs[i].Vals["li0"] = l
 			}
 			if _, ok := bs[i].Vals["ls0"]; ok && i%3 != 2 {
-				bs[i].Vals["ls0"] = bigStrList(r, []int{10, 80, 150}[r.Intn(3)])
+				l := bigStrList(r, []int{10, 80, 150}[r.Intn(3)])
+				if i%2 == 0 {
+					for k := range l {
+						l[k] += "-other"
+					}
+				}
+				bs[i].Vals["ls0"] = l
 			}
 		}
 		w.Inc("programs_big_list_constants")
